@@ -476,6 +476,36 @@ func (fr *frame) prepareLoops() {
 		}
 		sort.Strings(li.mods)
 	}
+	// An outer loop whose body consists of an inner loop only has no positioned
+	// instruction of its own and was matched to the inner statement: where two loops got
+	// the same ordinal, the one that contains the other's header is the enclosing one and
+	// takes the innermost AST loop that strictly encloses the shared statement.
+	for changed := true; changed; {
+		changed = false
+		for _, outer := range fr.loops {
+			for _, inner := range fr.loops {
+				if outer == inner || outer.ordinal != inner.ordinal || outer.ordinal == 0 {
+					continue
+				}
+				if !outer.body[inner.header] || inner.body[outer.header] {
+					continue
+				}
+				cur := astLoops[outer.ordinal-1]
+				best := -1
+				for i, n := range astLoops {
+					if n != cur && n.Pos() <= cur.Pos() && cur.End() <= n.End() {
+						if best < 0 || (astLoops[best].End()-astLoops[best].Pos()) > (n.End()-n.Pos()) {
+							best = i
+						}
+					}
+				}
+				if best >= 0 {
+					outer.ordinal = best + 1
+					changed = true
+				}
+			}
+		}
+	}
 }
 
 // instrMods adds the heap maps one instruction may modify (transitively through calls).
